@@ -213,7 +213,41 @@ func buildC08Inband(tier string) sim.Scenario {
 			}
 			seenMeta, seenCfg := false, false
 			lastV, lastA := -1, -1
+			// metadata, then the video decoder configuration, then the AAC configuration, and only then media tags
+			stage, need := 0, 2
+			if cdc == oracle.H264 {
+				need = 3 // sdpH264AAC has an audio track
+			}
 			for k, t := range f.Tags {
+				switch {
+				case t.Type == 18:
+					if stage != 0 {
+						w.Fail("C08/header-order", "viewer %d: metadata tag at position %d (stage %d)", v, k, stage)
+						return
+					}
+					stage = 1
+					if wd, ok := t.Meta["width"].(float64); !ok || int(wd) != vm.Width || vm.Width == 0 {
+						w.Fail("C08/metadata", "viewer %d (parameter sets in-band only): onMetaData width=%v, the stream's is %d", v, t.Meta["width"], vm.Width)
+						return
+					}
+				case t.Type == 9 && t.PacketType == 0:
+					if stage != 1 {
+						w.Fail("C08/header-order", "viewer %d: video configuration tag at position %d in stage %d (expected right after the metadata)", v, k, stage)
+						return
+					}
+					stage = 2
+				case t.Type == 8 && t.AACPacketType == 0:
+					if stage != 2 {
+						w.Fail("C08/header-order", "viewer %d: AAC configuration tag at position %d in stage %d (expected after the video configuration)", v, k, stage)
+						return
+					}
+					stage = 3
+				default:
+					if stage < need {
+						w.Fail("C08/header-order", "viewer %d (joined at packet %d): media tag (type %d) at position %d before metadata/decoder configurations were complete (stage %d of %d)", v, joinAt[v], t.Type, k, stage, need)
+						return
+					}
+				}
 				switch {
 				case t.Type == 18:
 					seenMeta = true
